@@ -97,11 +97,47 @@ def check_c03(tier):
     _neg_wr(rep, "C03", cases)
     rep.assumptions = ["URLs carry no fragment or userinfo; b1 bundles have a primary URL; header names ASCII tokens unique after case folding; values visible ASCII; status 100..999",
                        "the byte-identical fixpoint is not claimed for bundles with multi-key Variant-Key entries"]
+    # "... and signatures section": bundles carrying a signatures section (0..3 authorities, 0..7 vouched subsets)
+    sigsection_roundtrip(rep, "C03")
     # instances of tens of MiB (thresholds in buffering / chunking code): Trace_Huge
     from huge_checks import huge
     huge(rep, "C03", "bundle")
     huge(rep, "C03", "variants")
     return rep.finish()
+
+
+def sigsection_roundtrip(rep, pid):
+    """Write / read / write / read of bundles that carry a signatures section; Trace_BundleSig (kind wrsig) compares the file
+    with SpecWrite(bundle with SigSection(section)) and the section read back with the one written."""
+    wd = workdir(pid)
+    p = os.path.join(wd, "sigrt.ndjson")
+    vh_to_file(["bundle-sigrt"], p, timeout=3000)
+    cases = {}
+    for line in open(p):
+        d = json.loads(line)
+        cases[d["case"]] = d
+    n, rejects, states = trace_validate("Trace_BundleSig", pid + "/sigrt", p, overrides=True, shards=8, timeout=3000)
+    rep.cov["states"] += states
+    rep.cov["transitions"] += states
+    rep.cov["traces_validated_against_impl"] += n
+    for rj in rejects:
+        c = cases[rj["case"]]
+        for w in rj["why"]:
+            rep.violation("sigrt:%s:%s" % (c["b"]["ver"], w[:50]), "%s bundle with a signatures section of %d authorities and %d vouched subsets, written and read back: %s [write error=%s, read %s, %d subsets read back]" % (
+                c["b"]["ver"], len(c["sigrec"]["auths"]), len(c["sigrec"]["subsets"]), w, c["werr"], c["verdict"], len(c["sigrec2"]["subsets"])),
+                {"component": "bundle", "event_case": c["case"], "why": w, "authorities": len(c["sigrec"]["auths"]), "subsets": len(c["sigrec"]["subsets"])})
+    rep.add("signatures_section_roundtrip", bundles=n, rejected=len(rejects))
+    good = [c for c in cases.values() if c["case"] not in rep.rejected_ids]
+    if not good:
+        return n        # every record rejected: violations are reported above, the control needs one accepted record
+    good = good[-1]
+    bad = json.loads(json.dumps(good)); bad["case"] = "neg1"; bad["sigrec2"]["subsets"] = bad["sigrec2"]["subsets"] + [{"authority": [0] * 8, "sig": [1], "signed": [2]}]
+    np_ = os.path.join(wd, "sigrt-neg.ndjson")
+    open(np_, "w").write(json.dumps(good) + "\n" + json.dumps(bad) + "\n")
+    _, rj, _ = trace_validate("Trace_BundleSig", pid + "/sigrt-neg", np_, overrides=True, shards=1)
+    if [x["case"] for x in rj] != ["neg1"]:
+        raise Infra("negative control failed for Trace_BundleSig(wrsig): %s" % rj)
+    return n
 
 
 def check_c04(tier):
